@@ -404,3 +404,42 @@ def objective_task(T, est):
 
 for _e in ('Lasso', 'WeightedLasso', 'ElasticNet', 'SparseLogisticRegression'):
     add_task('C11', f'estimators:{_e}.objective', objective_task, strength='B', est=_e)
+
+
+def experimental_params_task(T):
+    """estimators outside estimators.py (skglm/experimental): every constructor parameter is READ by fit() or by a method fit() reaches
+    through self-calls -- a documented argument that is never read cannot influence the fitted model (the weakest form of
+    `every documented argument flows`; the full triple check above covers estimators.py)"""
+    from pv.frame import Package
+    P = Package(REPO)
+    found = 0
+    for (m, n), c in sorted(P.classes.items()):
+        if '.experimental.' not in m:
+            continue
+        bases = {ast.unparse(b).split('.')[-1] for _, cc in P.class_mro(m, c) for b in cc.bases}
+        if not bases & {'BaseEstimator', 'LinearModel', 'RegressorMixin'} or P.find_method(m, c, 'fit') is None:
+            continue
+        found += 1
+        init = P.find_method(m, c, '__init__')
+        params = [a.arg for a in init[2].args.args[1:] + init[2].args.kwonlyargs] if init else []
+        seen, todo, loads = set(), ['fit'], set()
+        while todo:
+            nm = todo.pop()
+            if nm in seen:
+                continue
+            seen.add(nm)
+            mm = P.find_method(m, c, nm)
+            if mm is None:
+                continue
+            for x in ast.walk(mm[2]):
+                if isinstance(x, ast.Attribute) and isinstance(x.value, ast.Name) and x.value.id == 'self':
+                    if isinstance(x.ctx, ast.Load):
+                        loads.add(x.attr)
+                        todo.append(x.attr)
+        for p in params:
+            (T.ok if p in loads else T.failed)(f'param-read/{c.name}.{p}', note='' if p in loads else
+                                               f'constructor parameter `{p}` of {c.name} is never read by fit() or the methods it calls')
+    (T.ok if found >= 2 else T.failed)('param-read/experimental-estimators-found', note=f'{found} classes')
+
+
+add_task('C11', 'experimental:constructor-parameters-are-read', experimental_params_task)
